@@ -1,6 +1,6 @@
 """What MANIFEST.json claims.  A property is in CLAIMS only when bin/check <id> exists and passes on the
 unchanged tree; everything else is in NOT_APPLICABLE with the reason (including 'not built yet')."""
-HOOK_COMMITS = []
+HOOK_COMMITS = ["36f4660"]
 NOTES = ("Contract-based deductive verification with CBMC 6.11; see DESIGN.md. exit 2 from a check means undecided "
          "(tool failure/timeout/changed loop shape), never a violation.")
 CLAIMS = {
@@ -15,6 +15,64 @@ CLAIMS = {
                 "with CBMC: not claimed). PDF blend modes assume premultiplied inputs (channel <= alpha). Width <= 2^20.",
     },
 }
+CLAIMS.update({
+    "C05": {
+        "text": "Region set algebra: every shortcut/trivial path of intersect, union, subtract, inverse, intersect_rect, union_rect, copy, reset, "
+                "clear, init* (operands of at most one rectangle or empty, every aliasing pattern, 16- and 32-bit, full coordinate domain) is "
+                "proved against point membership at a ghost point, with the decision *when* the shortcut may be left (pixman_op precondition) "
+                "as an obligation; pixman_coalesce, pixman_set_extents, init_rects(<=1) and the 16/32 conversions have their own contracts.",
+        "note": "Bounded stand-ins (never counted as proved): operands with exactly 2 rectangles, pixman_op with the real intersect band function "
+                "(<=2 rects, coordinates 0..6), coalesce/set_extents with k>=2. UNVERIFIED: pixman_op with the union/subtract band functions, "
+                "validate, quick_sort_rects, init_rects with >=2 boxes (symbolic execution does not finish at any bound tried). "
+                "Known finding: signed overflow in init_rects(count==1) for boxes wider than INT32_MAX.",
+    },
+    "C06": {
+        "text": "Canonical form (every clause of the property: non-empty rects, band order, shared vertical extent, gaps, merged adjacent bands, "
+                "tight extents, single rect inline, empty = empty_data) is a conjunct of every C05 postcondition; equal() <=> same point set "
+                "incl. 'all empty regions are equal' (defect found and repaired by a fix: commit); selfcheck accepts every canonical region.",
+        "note": "Same bounds as C05. Uniqueness of the canonical form (same points => same list) is argued, not machine-checked. Known findings: "
+                "intersect_rect / inverse with an empty rectangle argument return a non-canonical 'single rectangle' holding no points.",
+    },
+    "C09": {
+        "text": "The opacity-driven operator reduction is proved on the real code: optimize_operator selects exactly the table cell the flags say "
+                "(every operator, every flag word), and for each Porter-Duff/ADD operator and each opacity cell the real combiner of the "
+                "original operator and the real combiner of the reduced operator give the same pixel for every (s,m,d) with the cell's alphas "
+                "forced to 255 (relational, no spec).",
+        "note": "Pixel-level, one pixel at a time (C01's scanline contracts lift it to any width). The opacity *flags* themselves "
+                "(compute_image_info: IS_OPAQUE only if every contributing sample has alpha 1) and the promotion logic in "
+                "pixman_image_composite32 are covered by the C14/C03 helpers' jobs when present; SATURATE only by cell selection.",
+    },
+    "C11": {
+        "text": "Fixed-point transforms: split-form exactness of the 31.16 point transforms (affine, 3d, projective parts), the narrowing/FALSE "
+                "logic of pixman_transform_point/_3d, multiply range logic and values, init/scale/rotate/translate structure, bounds, the "
+                "predicates and the fixed<->float conversions are under contract over the full input domain; 'never aborts' is the reachability "
+                "of the internal asserts for every matrix.",
+        "note": "Bounded: distributivity lemma and quotient correctness of the 128-bit dividers at reduced operand width; f_transform_invert only "
+                "for zero rows. Not decided: projective branch end to end, invert accuracy (real analysis). 12 jobs are genuine defects listed in "
+                "known-findings.txt (abort for w=-2^(16+k), wrapped values from scale/rotate/translate/bounds/within_epsilon, NaN conversion, "
+                "per-term rounding in multiply).",
+    },
+    "C16": {
+        "category": "other",
+        "text": "Ownership/frame premise of race freedom only: the set of objects with static storage duration that are neither thread-local nor "
+                "const, over all 33 library translation units as compiled from the current tree, and the functions that assign them, equals a "
+                "reviewed list whose writers run only from the library constructor (plus an error-path counter and a set-up API); the "
+                "fast-path cache carries the thread_local flag. A new shared writable object, a new writer, or a lost TLS flag fails a named obligation.",
+        "note": "Sequential contracts cannot decide schedules: determinism under interleaving is NOT decided. Writes through pointers are not tracked. "
+                "The allow-list in props/C16.py is trusted.",
+        "technique": "contract-style frame fact read off the goto-cc symbol table and goto functions (no schedule exploration)",
+    },
+    "C17": {
+        "text": "Glyph cache as a map under any history: with the table shrunk by the guarded hook to 4 (quick) / 8 (thorough) slots and its whole "
+                "contents symbolic under the data-structure invariant cache_wf (any reachable or unreachable history, any keys, any hash), "
+                "lookup == view and terminates, insert/remove/thaw/clear/freeze/create/destroy preserve cache_wf and change the view exactly "
+                "by the key concerned, thaw evicts only above high water and LRU-first, a full cache refuses insertion. The non-termination "
+                "defect (table could fill completely) was found by 'insert keeps a NULL slot' and repaired by a fix: commit.",
+        "note": "Bounded in table size (4/8 slots; generalisation to 32768 by parametricity is stated, not proved); image create/composite/unref "
+                "are recording stubs. box32_intersect is a full-domain proof. Per-glyph drawing geometry and the ADD-accumulation equivalence "
+                "are NOT covered.",
+    },
+})
 _NOT_BUILT = "check not built yet in this session (planned in DESIGN.md §5); not claimed until bin/check passes on the unchanged tree"
-NOT_APPLICABLE = {p: _NOT_BUILT for p in ["C02", "C03", "C04", "C05", "C06", "C07", "C08", "C09", "C10", "C11", "C12", "C13", "C14",
-                                           "C15", "C16", "C17", "C18", "C19", "C20"]}
+NOT_APPLICABLE = {p: _NOT_BUILT for p in ["C02", "C03", "C04", "C07", "C08", "C10", "C12", "C13", "C14",
+                                           "C15", "C18", "C19", "C20"]}
